@@ -210,9 +210,14 @@ class MG(da.Solver):
         # Compute residual
         r = rhs - self.operator(x, h=h)
 
-        # Restrict residual (and parameters in case of heterogeneities)
+        # Restrict residual (and parameters in case of heterogeneities). Keep track of
+        # the parameters and smoother on the current level, to be able to return to them
+        # after the coarse grid correction; restriction is not invertible.
         r = self.restriction(r)
         if self.heterogeneous:
+            fine_mass_coeff = self.mass_coeff
+            fine_diffusion_coeff = self.diffusion_coeff
+            fine_smoother = self.smoother
             self.restrict_parameters()
 
         # Solve/smooth coarse problem or further V-cycle
@@ -229,7 +234,12 @@ class MG(da.Solver):
         # Pad correction if necessary (to account for odd number of grid points)
         pad_tuple = tuple((0, x.shape[i] - eps.shape[i]) for i in range(self.dim))
         if self.heterogeneous:
-            self.prolongate_parameters(pad_tuple)
+            # Return to the parameters of the current level. NOTE: Prolongating the
+            # restricted parameters would replace them by their block-wise averages,
+            # also for all subsequent cycles and calls.
+            self.mass_coeff = fine_mass_coeff
+            self.diffusion_coeff = fine_diffusion_coeff
+            self.smoother = fine_smoother
         eps = np.lib.pad(
             eps,
             pad_tuple,
